@@ -39,6 +39,7 @@ inductive Cmd where
   | del (ks : List Bytes) (reclaim : Bool) | exists_ (ks : List Bytes) | type_ (k : Bytes) | touch (ks : List Bytes)
   | rename (s d : Bytes) (nx : Bool) | copy (s d : Bytes) (replace : Bool) (db : Bool)
   | keys (pat : Bytes) | randomkey | dbsize
+  | sort (k : Bytes) (by_ : Option Bytes) (limit : Option (Int × Int)) (gets : List Bytes) (desc alpha : Bool) (store : Option Bytes)
   | expire (k : Bytes) (n : Int) (unit : Nat) (abs : Bool) (opt : ExpireOpt)  -- unit: ns per unit
   | persist (k : Bytes) | ttl (k : Bytes) (kind : TtlKind)
   | scan (kind : Nat) (k : Bytes) (cursor : Int) (pat : Option Bytes) (count : Option Int) (ty : Option Bytes)
@@ -58,6 +59,49 @@ inductive Cmd where
 /-! ### argument parsing helpers -/
 
 def int? (b : Bytes) : Option Int := parseInt64 b
+
+structure SortOpts where
+  by_ : Option Bytes := none
+  limit : Option (Int × Int) := none
+  gets : List Bytes := []
+  order : Option Bool := none      -- some true = DESC
+  alpha : Bool := false
+  store : Option Bytes := none
+  inGets : Bool := false           -- the previous option was a GET
+  getsDone : Bool := false         -- a run of GET options has ended
+
+def SortOpts.desc (o : SortOpts) : Bool := o.order.getD false
+
+/-- the options of SORT: any order, each at most once except GET, whose repetitions have to follow one
+    another (the grammar-driven argument parser reads `GET pattern [GET pattern …]` as one clause) -/
+def parseSortOpts : List Bytes → SortOpts → Option SortOpts
+  | [], o => some o
+  | t :: r, o =>
+    let u := lowerB t
+    let o := if u != sb "get" && o.inGets then { o with inGets := false, getsDone := true } else o
+    if u == sb "by" then
+      match r with
+      | p :: r' => if o.by_.isSome then none else parseSortOpts r' { o with by_ := some p }
+      | [] => none
+    else if u == sb "limit" then
+      match r with
+      | a :: b :: r' =>
+        match parseInt64 a, parseInt64 b with
+        | some x, some y => if o.limit.isSome then none else parseSortOpts r' { o with limit := some (x, y) }
+        | _, _ => none
+      | _ => none
+    else if u == sb "get" then
+      match r with
+      | p :: r' => if o.getsDone then none else parseSortOpts r' { o with gets := o.gets ++ [p], inGets := true }
+      | [] => none
+    else if u == sb "asc" then (if o.order.isSome then none else parseSortOpts r { o with order := some false })
+    else if u == sb "desc" then (if o.order.isSome then none else parseSortOpts r { o with order := some true })
+    else if u == sb "alpha" then (if o.alpha then none else parseSortOpts r { o with alpha := true })
+    else if u == sb "store" then
+      match r with
+      | d :: r' => if o.store.isSome then none else parseSortOpts r' { o with store := some d }
+      | [] => none
+    else none
 
 /-- options `TOKEN [value]*`, each at most once, any order. `spec`: (token, number of values) -/
 def parseOpts (spec : List (Bytes × Nat)) : List Bytes → List (Bytes × List Bytes) → Option (List (Bytes × List Bytes))
@@ -217,6 +261,10 @@ def parseCmd (name : Bytes) (a : List Bytes) : Option Cmd :=
   else if n == sb "lrem" then (match a with | [k, c, v] => (int? c).map fun c => .lrem k c v | _ => none)
   else if n == sb "ltrim" then
     (match a with | [k, s, e] => (do let s ← int? s; let e ← int? e; pure (.ltrim k s e)) | _ => none)
+  else if n == sb "sort" then
+    (match a with
+     | k :: r => (parseSortOpts r {}).map fun o => .sort k o.by_ o.limit o.gets o.desc o.alpha o.store
+     | _ => none)
   else if n == sb "lpos" then
     (match a with
      | k :: v :: r => do
@@ -448,7 +496,7 @@ def knownCommands : List String :=
 
 /-- commands the model has no semantics for: the driver does not judge their replies and the
     generators keep them away from state (`opaque`) -/
-def unmodelled : List String := ["command", "info", "dump", "restore", "sort", "blmpop"]
+def unmodelled : List String := ["command", "info", "dump", "restore", "blmpop"]
 
 /-! ### Sessions and the database table -/
 
@@ -632,6 +680,7 @@ def runCmd (c : Ctx) (s : State) (conn : Nat) (ref : Nat) (inMulti : Bool) : Cmd
   | .rename a b nx => onDb s ref fun db => cmdRename c db a b nx
   | .copy a b rep dbOpt =>
       if dbOpt then { st := s, reply := errDbCopy } else onDb s ref fun db => cmdCopy c db a b rep
+  | .sort k b l g d al st => onDb s ref fun db => cmdSort c db k b l g d al st
   | .keys _ => onDb s ref fun db => { db := db, reply := .nil, hint := .custom "keys" }
   | .randomkey => onDb s ref fun db => { db := db, reply := .nil, hint := .custom "randomkey" }
   | .dbsize =>
